@@ -877,7 +877,9 @@ std::string sqf::parser::preprocessor::impl_default::instance::parse_ppinstructi
             log(err::UnexpectedIfdef(fileinfo.to_diag_info()));
         }
         auto res = m_macros.find(static_cast<std::string>(line));
-        current_file_scope().conditions.push_back({ res != m_macros.end(), fileinfo, fileinfo });
+        bool parent_allow_write = current_file_scope().conditions.empty() || current_file_scope().conditions.back().allow_write;
+        bool own_condition = res != m_macros.end();
+        current_file_scope().conditions.push_back({ parent_allow_write && own_condition, fileinfo, fileinfo, own_condition, parent_allow_write });
         return "\n";
     }
     else if (inst == "IFNDEF")
@@ -887,7 +889,9 @@ std::string sqf::parser::preprocessor::impl_default::instance::parse_ppinstructi
             log(err::UnexpectedIfndef(fileinfo.to_diag_info()));
         }
         auto res = m_macros.find(static_cast<std::string>(line));
-        current_file_scope().conditions.push_back({ res == m_macros.end(), fileinfo, fileinfo });
+        bool parent_allow_write = current_file_scope().conditions.empty() || current_file_scope().conditions.back().allow_write;
+        bool own_condition = res == m_macros.end();
+        current_file_scope().conditions.push_back({ parent_allow_write && own_condition, fileinfo, fileinfo, own_condition, parent_allow_write });
         return "\n";
     }
     else if (inst == "ELSE")
@@ -898,7 +902,9 @@ std::string sqf::parser::preprocessor::impl_default::instance::parse_ppinstructi
             log(err::UnexpectedElse(fileinfo.to_diag_info()));
             return "";
         }
-        current_file_scope().conditions.back().allow_write = !current_file_scope().conditions.back().allow_write;
+        auto& condition = current_file_scope().conditions.back();
+        condition.own_condition = !condition.own_condition;
+        condition.allow_write = condition.parent_allow_write && condition.own_condition;
         return "\n";
     }
     else if (inst == "ENDIF")
